@@ -4,7 +4,7 @@ CONSTANTS
   Listens = {"accept", "refuse", "hang"}
   InitCalls = {1, 2}
   LateCall = 3
-  MaxD = 3
+  MaxD = 4
   EnvCancel = TRUE
   WithHist = FALSE
   Eager = FALSE
